@@ -187,7 +187,22 @@ def minimise_case(prop, case, res, budget):
 
     if not hasattr(prop, 'candidates'):
         return case, 0
-    small, used = shrink.minimise(case, runner, prop.candidates, budget=budget)
+
+    def candidates(c0):
+        # cases built in two stages (gen.add_late_cone): first try without the history, and
+        # keep the stage sizes in step with a shrunk script
+        if c0.get('stage'):
+            import copy
+            c = copy.deepcopy(c0)
+            c['stage'] = None
+            yield c
+        for c in prop.candidates(c0):
+            if c0.get('stage') and c.get('stage') and c.get('script') is not None:
+                from . import gen
+                st = gen.restage(c['script'])
+                c['stage'] = dict(c0['stage'], **st) if st else None
+            yield c
+    small, used = shrink.minimise(case, runner, candidates, budget=budget)
     return small, used
 
 
